@@ -101,6 +101,8 @@ contract(
         ('bias_meta', 'implies(self.module.bias is not None, self.module.bias.grad.shape == old(self.module.bias.grad.shape) '
                       'and self.module.bias.grad.contig and self.module.bias.grad.dtype is grad.dtype)'),
         ('old_grad_storage_untouched', 'old(self.module.weight.grad).val == old(val(self.module.weight.grad))'),
+        ('gradients_present', 'self.module.weight.grad is not None and implies(self.module.bias is not None, self.module.bias.grad is not None)'),
+        ('new_gradient_objects', 'is_fresh(self.module.weight.grad) and implies(self.module.bias is not None, is_fresh(self.module.bias.grad))'),
     ],
     modifies=['self.module.weight.grad', 'self.module.bias.grad'],
 )
